@@ -360,6 +360,92 @@ pub fn generate(prop: &str, tier: &str, r: &mut Rng, out: &mut Vec<String>) -> G
             }
             GenInfo { rule: "ten size-parameterised input families (nesting depth, set width, attributes, duplicate attributes, groups, members, unclosed begins, stray ends, maximal values, sets of collections; well-formed and malformed), n doubling from 4 KiB to 256 KiB of input (1 KiB to 1 MiB thorough) plus tiny sizes; for each the real parse is measured by a counting allocator (bytes and calls per input byte against absolute ceilings, growth factor on doubling <= 2.5, wall-clock backstop); consumed bytes compared with the model up to 4096 elements; non-trivial = distinct (family, n)".into(), exhaustive: false }
         }
+        "C11" => {
+            let lim = Limits { max_depth: 2, boundary: false };
+            let tok = |r: &mut Rng, n: u64| -> String { (0..r.range(1, n)).map(|_| *r.pick(&['a', 'b', 'x', 'z', '0', '7', '-'])).collect() };
+            let gen_cfg = |r: &mut Rng, timeout: Option<u64>| -> String {
+                let mut parts: Vec<String> = vec![];
+                for _ in 0..r.below(4) {
+                    let k = format!("x-{}", tok(r, 8));
+                    let v: String = (0..r.range(0, 12)).map(|_| r.range(0x21, 0x7e) as u8 as char).collect();
+                    parts.push(format!("(h {} {})", hex(k.as_bytes()), hex(v.trim().as_bytes())));
+                }
+                if r.chance(1, 2) {
+                    let u = gen_string(r, &Limits { max_depth: 0, boundary: false });
+                    let p = if r.chance(1, 3) { format!("{}:{}", tok(r, 5), tok(r, 5)) } else { gen_string(r, &Limits { max_depth: 0, boundary: false }) };
+                    parts.push(format!("(auth {} {})", hex(u.as_bytes()), hex(p.as_bytes())));
+                }
+                if let Some(t) = timeout {
+                    parts.push(format!("(timeout {})", t));
+                }
+                format!("(cfg{}{})", if parts.is_empty() { "" } else { " " }, parts.join(" "))
+            };
+            let gen_target = |r: &mut Rng| -> String {
+                let p = match r.below(4) {
+                    0 => "/".to_string(),
+                    1 => "/printers/laser".to_string(),
+                    2 => format!("/ipp/print/{}", tok(r, 6)),
+                    _ => format!("/p%20q/{}?job={}&x=%2F", tok(r, 4), r.below(100)),
+                };
+                format!("(target {})", hex(p.as_bytes()))
+            };
+            let resp_bytes = |r: &mut Rng| -> (Vec<u8>, usize) {
+                let m = gen_msg(r, &lim);
+                let q = build(&m).unwrap();
+                let mut b = q.to_bytes().to_vec();
+                let ha = b.len();
+                let n = r.below(60) as usize;
+                b.extend_from_slice(&r.bytes(n));
+                (b, ha)
+            };
+            let frags = |r: &mut Rng| -> String {
+                let n = r.below(5);
+                format!("(frags{}{})", if n == 0 { "" } else { " " }, (0..n).map(|_| r.range(1, 40).to_string()).collect::<Vec<_>>().join(" "))
+            };
+            let framings = ["cl", "chunked", "close"];
+            let clients = ["blocking", "async"];
+            let n_ok = if thorough { 3000 } else { 150 };
+            for i in 0..n_ok {
+                let mut rr = r.fork();
+                let m = gen_msg(&mut rr, &lim);
+                let plen = if thorough && i % 100 == 0 { rr.range(1 << 20, 3 << 20) as usize } else { rr.below(300) as usize };
+                let pay = rr.bytes(plen);
+                let (body, _) = resp_bytes(&mut rr);
+                out.push(format!("send {} {} {} {} {} (srv 200 {} {} {})", clients[i % 2], show_msg(&m), hex(&pay), gen_cfg(&mut rr, None), gen_target(&mut rr), framings[(i / 2) % 3], hex(&body), frags(&mut rr)));
+            }
+            // every 4xx / 5xx status, alternating clients and framings
+            for st in 400..600u32 {
+                let mut rr = r.fork();
+                let m = gen_msg(&mut rr, &lim);
+                let (body, _) = resp_bytes(&mut rr);
+                for c in 0..(if thorough { 2 } else { 1 }) {
+                    out.push(format!("send {} {} - {} {} (srv {} {} {} {})", clients[(st as usize + c) % 2], show_msg(&m), gen_cfg(&mut rr, None), gen_target(&mut rr), st, framings[st as usize % 3], hex(&body), frags(&mut rr)));
+                }
+            }
+            // connection cut at every offset inside header+attributes, under each framing
+            for k in 0..(if thorough { 25 } else { 5 }) {
+                let mut rr = r.fork();
+                let m = gen_msg(&mut rr, &lim);
+                let (body, ha) = resp_bytes(&mut rr);
+                for cut in 0..ha.min(if thorough { 400 } else { 120 }) {
+                    for (fi, f) in framings.iter().enumerate() {
+                        out.push(format!("send {} {} - (cfg) (target 2f) (srv 200 {} {} {} (cut {}))", clients[(cut + fi + k) % 2], show_msg(&m), f, hex(&body), frags(&mut rr), cut));
+                    }
+                }
+            }
+            // stalled server against a request timeout
+            for c in clients {
+                let mut rr = r.fork();
+                let m = gen_msg(&mut rr, &lim);
+                let (body, _) = resp_bytes(&mut rr);
+                out.push(format!("send {} {} - {} (target 2f) (srv 200 cl {} (stall 1500))", c, show_msg(&m), gen_cfg(&mut rr, Some(300)), hex(&body)));
+                out.push(format!("send {} {} - {} (target 2f) (srv 200 cl {} (stall 50))", c, show_msg(&m), gen_cfg(&mut rr, Some(5000)), hex(&body)));
+            }
+            for c in clients {
+                out.push(format!("send_many {} {}", c, if thorough { 32 } else { 16 }));
+            }
+            GenInfo { rule: "both real clients against a scripted loopback HTTP/1.1 server: seeded requests (random messages, payloads from a fragmenting source, 0-3 custom headers, Basic credentials incl. ':' and UTF-8, paths with queries) answered with status 200 under content-length / chunked / close-delimited framing and random write fragmentation; every status 400-599; the connection cut at every offset inside header+attributes of 5 responses under each framing; a stalled server against a request timeout; 16 concurrent senders per client. The captured request and the returned value are compared with the model's prediction and with direct oracles; non-trivial = distinct exchanges".into(), exhaustive: false }
+        }
         "C04" => {
             let n = if thorough { 200_000 } else { 3_000 };
             let lim = crate::wiregen::WLimits { max_depth: if thorough { 6 } else { 4 }, malformed_per_mille: 8, boundary: true };
